@@ -121,7 +121,11 @@ Fixpoint nth_opt {A} (l : list A) (n : nat) : option A :=
   | x :: _, O => Some x
   | _ :: l', S n' => nth_opt l' n'
   end.
-Definition nthN {A} (l : list A) (n : N) : option A := nth_opt l (N.to_nat n).
+Fixpoint nthN {A} (l : list A) (n : N) : option A :=
+  match l with
+  | [] => None
+  | x :: l' => if n =? 0 then Some x else nthN l' (N.pred n)
+  end.
 Definition lenN {A} (l : list A) : N := N.of_nat (List.length l).
 
 Fixpoint join (sep : str) (l : list str) : str :=
